@@ -9,6 +9,7 @@
   (with score cell `s`), and (2) only when `am`, one row per pair with a missing join value.
 -/
 import SSJ.Proofs.Frames
+import SSJ.Proofs.BodyOK
 import SSJ.Proofs.JoinExact
 import SSJ.Proofs.Session
 import SSJ.Proofs.Arith
@@ -189,6 +190,7 @@ theorem runTables_described (a : TableArgs) (l r : Frame) (am oss : Bool) (cpu :
     (work : OutCfg → Nat → Nat → List Row → List Row → List Row)
     (P : Cell → Cell → Cell → Prop) (pairs : List (Nat × Nat × Cell))
     (hkl : validateKeyAttr a.lKey l = .ok ()) (hkr : validateKeyAttr a.rKey r = .ok ())
+    (hb : Props.BodyOK a l r oss)
     (hwidth : ∀ ch, ∀ row ∈ work (RT.out a) (RT.lAttrIdx a) (RT.rAttrIdx a) (RT.lArr a l) ch,
       row.length = (RT.header a oss).length)
     (hwork : (chunksFor (RT.rArr a r) a.nJobs cpu).flatMap (fun ch =>
@@ -197,7 +199,7 @@ theorem runTables_described (a : TableArgs) (l r : Frame) (am oss : Bool) (cpu :
         P (((RT.lArr a l).getD c []).cell (RT.lAttrIdx a)) (((RT.rArr a r).getD d []).cell (RT.rAttrIdx a)) s)
     (hnd : (pairs.map (fun p => (p.1, p.2.1))).Nodup) :
     ∃ fr, runTables a l r am oss cpu work = .ok fr ∧ Described a l r am oss P fr := by
-  obtain ⟨fr, hfr, hrows⟩ := runTables_ok a l r am oss cpu work hwidth
+  obtain ⟨fr, hfr, hrows⟩ := runTables_ok a l r am oss cpu work hwidth hb.lstr hb.rstr hb.noClash
   refine ⟨fr, hfr, ?_⟩
   rw [hwork] at hrows
   -- membership in the two parts
@@ -394,7 +396,7 @@ theorem overlapCoefficientJoinSplit_chunks (threshold : PyV) (compOp : String) (
 theorem overlapFilterTables_described (f : OverlapFilterObj) (a : TableArgs) (oss : Bool) (tok : String → List Tok)
     (cpu : Int) (l r : Frame) (hnd : ∀ s, (tok s).Nodup)
     (hv : validateTablesAttrs a = .ok (l, r)) (hk : validateOutAndKeys a l r = .ok ())
-    (hlen : r.rows.length < 2 ^ 40) :
+    (hlen : r.rows.length < 2 ^ 40) (hb : Props.BodyOK a l r oss) :
     ∃ fr, overlapFilterTables f a oss tok cpu = .ok fr ∧ Described a l r f.allowMissing oss (POverlap f tok) fr := by
   have e : overlapFilterTables f a oss tok cpu = runTables a l r f.allowMissing oss cpu
       (fun o lAttr rAttr lArr ch => overlapFilterTablesSplit f tok o lAttr rAttr oss lArr ch) := by
@@ -408,7 +410,7 @@ theorem overlapFilterTables_described (f : OverlapFilterObj) (a : TableArgs) (os
   have hlen' : (RT.rArr a r).length < 2 ^ 40 := Nat.lt_of_le_of_lt (rArr_length_le a r) hlen
   apply runTables_described a l r f.allowMissing oss cpu _ (POverlap f tok)
     ((overlapPairs f tok (RT.lAttrIdx a) (RT.rAttrIdx a) (RT.lArr a l) (RT.rArr a r)).map
-      (fun p => (p.1, p.2.1, Cell.int p.2.2))) hkl hkr
+      (fun p => (p.1, p.2.1, Cell.int p.2.2))) hkl hkr hb
   · intro ch row hrow
     rw [overlapFilterTablesSplit_eq_pairs, List.mem_map] at hrow
     obtain ⟨p, _, rfl⟩ := hrow
@@ -444,7 +446,7 @@ theorem overlapJoinPy_described (a : JoinArgs) (t : TokObj) (toks : TokFn) (cpu 
     (l r : Frame) (hnd : ∀ s, (toks true s).Nodup)
     (hf : mkOverlapFilter a.threshold a.compOp a.allowMissing t = .ok f)
     (hv : validateTablesAttrs a.toTableArgs = .ok (l, r)) (hk : validateOutAndKeys a.toTableArgs l r = .ok ())
-    (hlen : r.rows.length < 2 ^ 40) :
+    (hlen : r.rows.length < 2 ^ 40) (hb : Props.BodyOK a.toTableArgs l r a.outSimScore) :
     ∃ fr, (overlapJoinPy a t toks cpu).result = .ok fr ∧
       Described a.toTableArgs l r a.allowMissing a.outSimScore
         (POverlap { overlapSize := a.threshold, compOp := a.compOp, allowMissing := a.allowMissing } (toks true)) fr := by
@@ -455,7 +457,7 @@ theorem overlapJoinPy_described (a : JoinArgs) (t : TokObj) (toks : TokFn) (cpu 
   rw [e]
   have hf' := mkOverlapFilter_ok _ _ _ _ _ hf
   subst hf'
-  exact overlapFilterTables_described _ a.toTableArgs a.outSimScore (toks true) cpu l r hnd hv hk hlen
+  exact overlapFilterTables_described _ a.toTableArgs a.outSimScore (toks true) cpu l r hnd hv hk hlen hb
 
 /-! ## overlap-coefficient join -/
 
@@ -469,7 +471,7 @@ def POvc (thr : PyV) (op : String) (ae : Bool) (tok : String → List Tok) (lv r
 theorem overlapCoefficientJoinPy_described (a : JoinArgs) (t : TokObj) (toks : TokFn) (cpu : Int)
     (l r : Frame) (hnd : ∀ s, (toks true s).Nodup)
     (hv : validateJoin "OVERLAP_COEFFICIENT" a t = .ok (l, r))
-    (hlen : r.rows.length < 2 ^ 40) :
+    (hlen : r.rows.length < 2 ^ 40) (hb : Props.BodyOK a.toTableArgs l r a.outSimScore) :
     ∃ fr, (overlapCoefficientJoinPy a t toks cpu).result = .ok fr ∧
       Described a.toTableArgs l r a.allowMissing a.outSimScore
         (POvc a.threshold a.compOp a.allowEmpty (toks true)) fr := by
@@ -486,7 +488,7 @@ theorem overlapCoefficientJoinPy_described (a : JoinArgs) (t : TokObj) (toks : T
   apply runTables_described a.toTableArgs l r a.allowMissing a.outSimScore cpu _
     (POvc a.threshold a.compOp a.allowEmpty (toks true))
     (ovcPairs a.threshold a.compOp a.allowEmpty (toks true) (RT.lAttrIdx a.toTableArgs) (RT.rAttrIdx a.toTableArgs)
-      (RT.lArr a.toTableArgs l) (RT.rArr a.toTableArgs r)) hkl hkr
+      (RT.lArr a.toTableArgs l) (RT.rArr a.toTableArgs r)) hkl hkr hb
   · intro ch row hrow
     rw [overlapCoefficientJoinSplit_eq_pairs, List.mem_map] at hrow
     obtain ⟨p, _, rfl⟩ := hrow
@@ -563,11 +565,8 @@ theorem ovc_valid_thr_op (a : JoinArgs) (t : TokObj) (l r : Frame)
     PyV.leb a.threshold (.int 0) = false ∧ a.compOp ∈ [">=", ">", "="] := by
   have h' := (validateJoin_ok_iff _ a t l r).1 hv
   constructor
-  · have h3 := h'.2.2.1
-    by_contra hc
-    apply h3
-    simp only [Bool.not_eq_false] at hc
-    simp [Gen.validate_threshold, PyV.eqb, hc]
+  · exact PyV.leb_zero_of_gtb_zero
+      ((Gen.validate_threshold_unit_iff _ _ (Or.inr (Or.inr (Or.inr rfl)))).1 h'.2.2.1).1
   · have h4 := h'.2.2.2.1
     by_contra hc
     exact h4 ((Gen.validate_comp_op_for_sim_measure_sim _ _ (by decide)).2 hc)
@@ -605,10 +604,7 @@ theorem mkOverlapFilter_valid (size : PyV) (op : String) (am : Bool) (t : TokObj
     genCheck_bind_of_cases _ _ _ (Gen.validate_comp_op_for_sim_measure_cases _ _) rfl] at h
   split_ifs at h with h1 h2 h3
   constructor
-  · by_contra hc
-    apply h2
-    simp only [Bool.not_eq_false] at hc
-    simp [Gen.validate_threshold, PyV.eqb, hc]
+  · exact PyV.leb_zero_of_gtb_zero ((Gen.validate_threshold_overlap_iff _).1 h2)
   · by_contra hc
     exact h3 ((Gen.validate_comp_op_for_sim_measure_sim _ _ (by decide)).2 hc)
 
@@ -681,6 +677,7 @@ theorem overlapFilterTables_described_of_ok (f : OverlapFilterObj) (a : TableArg
     (hlen : r.rows.length < 2 ^ 40) (fr : Frame) (h : overlapFilterTables f a oss tok cpu = .ok fr) :
     Described a l r f.allowMissing oss (POverlap f tok) fr := by
   obtain ⟨fr', h', hd⟩ := overlapFilterTables_described f a oss tok cpu l r hnd hv hk hlen
+    (overlapFilterTables_bodyOK f a oss tok cpu l r hv fr h)
   rw [h] at h'
   cases Except.ok.inj h'
   exact hd
@@ -693,6 +690,7 @@ theorem overlapJoinPy_described_of_ok (a : JoinArgs) (t : TokObj) (toks : TokFn)
     Described a.toTableArgs l r a.allowMissing a.outSimScore
       (POverlap { overlapSize := a.threshold, compOp := a.compOp, allowMissing := a.allowMissing } (toks true)) fr := by
   obtain ⟨fr', h', hd⟩ := overlapJoinPy_described a t toks cpu f l r hnd hf hv hk hlen
+    (overlapJoinPy_bodyOK a t toks cpu l r hv fr h)
   rw [h] at h'
   cases Except.ok.inj h'
   exact hd
@@ -704,6 +702,7 @@ theorem overlapCoefficientJoinPy_described_of_ok (a : JoinArgs) (t : TokObj) (to
     Described a.toTableArgs l r a.allowMissing a.outSimScore
       (POvc a.threshold a.compOp a.allowEmpty (toks true)) fr := by
   obtain ⟨fr', h', hd⟩ := overlapCoefficientJoinPy_described a t toks cpu l r hnd hv hlen
+    (overlapCoefficientJoinPy_bodyOK a t toks cpu l r hv fr h)
   rw [h] at h'
   cases Except.ok.inj h'
   exact hd
@@ -729,7 +728,8 @@ theorem zip_map_fst_snd {α β : Type} (l : List (α × β)) : (l.map Prod.fst).
 /-- `filter_candset` with all validations passing, every candidate key resolvable and fewer than 2^40 candidate rows:
     the result has the candset's columns and dtypes, its rows are the candset rows not dropped by `fp` in candset
     order, and (for a well-formed candset: one index label per row) every kept row keeps its index label. -/
-theorem filterCandset_full (a : CandsetArgs) (fp : Cell → Cell → Bool) (cpu : Int) (c l r : Frame)
+theorem filterCandset_full (a : CandsetArgs) (fp : Cell → Cell → Except PyErr Bool) (fpb : Cell → Cell → Bool)
+    (cpu : Int) (c l r : Frame)
     (hc : a.candset = some c) (hlt : a.ltable = some l) (hrt : a.rtable = some r)
     (hv1 : validateAttr a.candLKey c = .ok ()) (hv2 : validateAttr a.candRKey c = .ok ())
     (hv3 : validateAttr a.lKey l = .ok ()) (hv4 : validateAttr a.rKey r = .ok ())
@@ -741,20 +741,21 @@ theorem filterCandset_full (a : CandsetArgs) (fp : Cell → Cell → Bool) (cpu 
                                          lrow.cell (l.colIdx a.lAttr) = lval cr)
     (hr : ∀ cr ∈ c.rows, ∃ rrow ∈ r.rows, rrow.cell (r.colIdx a.rKey) = cr.cell (c.colIdx a.candRKey) ∧
                                          rrow.cell (r.colIdx a.rAttr) = rval cr)
+    (hfp : ∀ cr ∈ c.rows, fp (lval cr) (rval cr) = .ok (fpb (lval cr) (rval cr)))
     (hlen : c.rows.length < 2 ^ 40) :
     ∃ fr, filterCandset a fp cpu = .ok fr ∧ fr.columns = c.columns ∧ fr.dtypes = c.dtypes ∧
-      fr.rows = c.rows.filter (fun cr => !fp (lval cr) (rval cr)) ∧
+      fr.rows = c.rows.filter (fun cr => !fpb (lval cr) (rval cr)) ∧
       (c.index.length = c.rows.length →
         fr.index.length = fr.rows.length ∧
-        fr.rows.zip fr.index = (c.rows.zip c.index).filter (fun p => !fp (lval p.1) (rval p.1))) := by
+        fr.rows.zip fr.index = (c.rows.zip c.index).filter (fun p => !fpb (lval p.1) (rval p.1))) := by
   have hchunks : (chunksFor (candLabelled c) a.nJobs cpu).flatten = candLabelled c :=
     chunksFor_flatten _ _ _ (Nat.lt_of_le_of_lt (candLabelled_length_le c) hlen)
-  obtain ⟨fr, hfr, h1, h2, h3⟩ := filterCandset_rows a fp cpu c l r hc hlt hrt hv1 hv2 hv3 hv4 hv5 hv6 hv7 hv8 hv9 hv10
-    lval rval hl hr hchunks
+  obtain ⟨fr, hfr, h1, h2, h3⟩ := filterCandset_rows a fp fpb cpu c l r hc hlt hrt hv1 hv2 hv3 hv4 hv5 hv6 hv7 hv8 hv9 hv10
+    lval rval hl hr hfp hchunks
   refine ⟨fr, hfr, h1, h2, h3, ?_⟩
   intro hwf
-  have hspec := filterCandset_spec a fp cpu c l r hc hlt hrt hv1 hv2 hv3 hv4 hv5 hv6 hv7 hv8 hv9 hv10
-    lval rval hl hr hchunks
+  have hspec := filterCandset_spec a fp fpb cpu c l r hc hlt hrt hv1 hv2 hv3 hv4 hv5 hv6 hv7 hv8 hv9 hv10
+    lval rval hl hr hfp hchunks
   rw [hfr] at hspec
   have hfr' := Except.ok.inj hspec
   by_cases hemp : c.rows.isEmpty = true
